@@ -36,6 +36,9 @@ pub enum Op {
         a1: Amt,
         slippage: Option<u8>,
         receiver: Option<u8>,
+        /// list the assets in the message in the opposite order to the pool's own
+        #[serde(default)]
+        reversed: bool,
     },
     /// deposit in the pool's current ratio: k/65536 of reserve 0 and the matching amount of 1
     ProvideBalanced { user: u8, k: u16 },
@@ -104,8 +107,8 @@ fn fee_arr() -> BoxedStrategy<[Uint128; 3]> {
 
 pub fn op() -> BoxedStrategy<Op> {
     prop_oneof![
-        3 => (0u8..4, amt(), amt(), proptest::option::of(0u8..4), proptest::option::of(0u8..4))
-            .prop_map(|(user, a0, a1, slippage, receiver)| Op::Provide { user, a0, a1, slippage, receiver }),
+        3 => (0u8..4, amt(), amt(), proptest::option::of(0u8..4), proptest::option::of(0u8..4), any::<bool>())
+            .prop_map(|(user, a0, a1, slippage, receiver, reversed)| Op::Provide { user, a0, a1, slippage, receiver, reversed }),
         3 => (0u8..4, any::<u16>()).prop_map(|(user, k)| Op::ProvideBalanced { user, k }),
         4 => (0u8..4, any::<u16>()).prop_map(|(user, k)| Op::Withdraw { user, k }),
         8 => (0u8..4, any::<bool>(), small_amt(), spread(), proptest::option::weighted(0.2, 0u8..4))
@@ -188,6 +191,7 @@ impl Check for CpPoolHistory {
                             a1: Amt::Abs(Uint128::new(i1.max(2000))),
                             slippage: None,
                             receiver: None,
+                            reversed: false,
                         },
                     );
                     if shape > 2 {
@@ -219,10 +223,12 @@ impl Check for CpPoolHistory {
             }
         }
         for (step, op) in ops.iter().enumerate() {
+            pw.reversed_msgs = false;
             let mut snap = pw.w.snapshot();
             let mut skip_value_check = false;
             let res: Result<(), String> = match op {
-                Op::Provide { user, a0, a1, slippage, receiver } => {
+                Op::Provide { user, a0, a1, slippage, receiver, reversed } => {
+                    pw.reversed_msgs = *reversed;
                     let usr = pw.user(*user);
                     let amounts = [
                         resolve(a0, before.reserves[0], pw.w.bal(&pw.infos[0], &usr)),
